@@ -233,6 +233,32 @@ func checkC08(c *Ctx, r *Report) {
 
 	checkBufferViews(c, r, "buffer-views")
 	checkAESPadConvention(c, r)
+	r.Rule("aes-pad-arithmetic", "the AES serialiser pads every payload length to a block multiple with 0 ≤ n ≤ 15 pad bytes (what the decoder requires)", 1)
+	if fn := c.Method("pkg/ipmi", "AES128CBC", "SerializeTo"); fn != nil {
+		checkAESPadArithmetic(c, r, fn)
+	} else {
+		r.Lost("ipmi.AES128CBC.SerializeTo")
+	}
+
+	// decoding into a previously used value must give the same result as into a fresh one
+	// (definite full assignment, shared with C17) for the two-way layers
+	r.Rule("decode-overwrites-everything", "each two-way layer's decoder assigns every field it ever assigns on all success paths, so decode(serialise(v)) does not depend on what the value held before", 7)
+	{
+		var entries []*ssa.Function
+		for _, L := range twoWayLayers {
+			if fn := c.Method(L.Pkg, L.Type, L.Dec); fn != nil {
+				entries = append(entries, fn)
+			}
+		}
+		lf := newLenflow(c, 4)
+		for _, fn := range entries {
+			lf.runEntry(fn, nil)
+		}
+		k := &c17{c: c, lf: lf, cache: map[*ssa.Function]*writeSummary{}, busy: map[*ssa.Function]bool{}}
+		for _, fn := range entries {
+			reportAssignment(c, r, k, fn)
+		}
+	}
 }
 
 // checkBufferViews: in every SerializeTo/Serialise, a slice obtained from
